@@ -32,3 +32,19 @@ Definition ok (c : case) : bool :=
       end
   end.
 Definition mismatches (l : list case) : list nat := mism ok l.
+
+(* recorder traces: initial heap of the test, events (observations = clone(), mutations, allocations) executed on real
+   Python objects; observed: what every recorded copy reads as at the end, and what every object of the test reads as at
+   the end (None = not readable within the fuel: cyclic) *)
+Definition rcase := (heap * list ev * list (option pure) * list (option pure))%type.
+Definition rok (c : rcase) : bool :=
+  match c with
+  | (h, evs, recs_after, cells_after) =>
+      let fuel := S (S (length h + length evs)) in
+      let s := rrun fuel evs (rinit h) in
+      let rd := read fuel (r_heap s) in
+      list_eqb (opt_eqb pure_eqb) (map rd (r_recs s)) recs_after
+      && list_eqb (opt_eqb pure_eqb)
+           (map (fun a => rd (HRef a)) (filter (fun a => negb (owned s a)) (seq 0 (length (r_heap s))))) cells_after
+  end.
+Definition rmismatches (l : list rcase) : list nat := mism rok l.
